@@ -28,12 +28,12 @@ theorem poly_families_correct {R : Type} [CommRing R] {o : Ops R} (ho : RingLike
 /-- every `frac` family of C09 (rotate…, lookAt), in every field-like semantics of characteristic zero,
 given that the listed norms are non-zero; then no division by zero is evaluated -/
 theorem frac_families_correct {K : Type} [Field K] [CharZero K] {o : Ops K} (ho : FieldLike o)
-    (f : Family) (hf : f ∈ families) (htm : f.treeMode = false) (hk : f.kind = .frac)
+    (f : Family) (hf : f ∈ families) (htm : f.treeMode = false) (hk : f.kind = .frac) (hdf : f.divFree = false)
     (ks : List Nat) (hks : ks ∈ f.keys) (j : Nat) (hj : j < f.nOut ks) (env : Nat → K)
     (hall : ∀ a ∈ f.allowed ks, a.divOK o env ∧ a.eval o env ≠ 0) :
     (f.post ks (lookup f.unit ks).outE j).divOK o env ∧
     (f.post ks (lookup f.unit ks).outE j).eval o env = (f.spec ks j).eval o env :=
-  Family.frac_sound ho (all_ok f hf) htm hk hks hj env hall
+  Family.frac_sound ho (all_ok f hf) htm hk hdf hks hj env hall
 
 /-- `translate(M, v)`: entry (column c, row r) is `Σ_k M[k][r] · T(v)[c][k]`, every commutative ring -/
 theorem translate_correct {R : Type} [CommRing R] (j : Nat) (hj : j < 16) (env : Nat → R) :
